@@ -4,8 +4,9 @@ CFG = dict(
     level_text="Theorems, all universally quantified: (DOT) escapeForDot / escapeTagForDot of ANY string between double quotes is exactly one "
                "string token of an independent Graphviz lexer and reads back as the string; the label rewriting applied after escaping keeps "
                "the body well-formed; for ALL graphs, titles, legends, tags, attributes the text of the ComposeDot model is accepted by an "
-               "independent DOT recogniser (dot_well_formed) and every edge endpoint is a declared node (dot_edges_declared) outside the two "
-               "recorded raw holes F25/F26, with refuted twins for both holes and for a dangling edge; (callgrind) for ALL graphs the reference "
+               "independent DOT recogniser (dot_well_formed) and every edge endpoint is a declared node (dot_edges_declared) -- unconditional "
+               "with respect to profile-derived text since the repair of F29/F30 (formatted values, file and binary names are escaped), with a "
+               "refuted twin for a dangling edge; (callgrind) for ALL graphs the reference "
                "reader follows the printCallgrind model line by line: no undefined/redefined (n), every reference resolves to the intended "
                "name, node and callee positions decode (callgrind_reads_back) outside F11, and the written TEXT parses back to those lines "
                "(callgrind_text_reads_back, outside F20), with refuted twins F11/F20. Models tied to the code by "
